@@ -28,6 +28,7 @@ mod jpt;
 mod life;
 mod ls;
 mod md;
+mod sdvc;
 mod util;
 
 use util::*;
@@ -82,6 +83,7 @@ fn main() {
         "CS" => cs::replay(&cases, &mut rep),
         "JPT" => jpt::replay(&cases, &mut rep),
         "TFR" => jpt::replay_tfr(&cases, &mut rep),
+        "SDVC" => sdvc::replay(&cases, &mut rep),
         p => tool_error(&format!("no replay driver for {p}")),
       }
       rep.write(&args[4]);
